@@ -254,9 +254,13 @@ def run_fn(ob, work, pid):
 
 def _run_one(args):
     ob, work, pid = args
-    if isinstance(ob, CH):
-        return run_ch(ob, work, pid)
-    return run_fn(ob, work, pid)
+    try:
+        if isinstance(ob, CH):
+            return run_ch(ob, work, pid)
+        return run_fn(ob, work, pid)
+    except Exception as ex:          # never let one obligation take the whole check down
+        import traceback
+        return Result(ob.name, HARNESS_ERROR, "runner: %s: %s\n%s" % (type(ex).__name__, ex, traceback.format_exc()[-600:]))
 
 
 # --------------------------------------------------------------------------------------------- tool-soundness lint
